@@ -7,9 +7,11 @@
                apply), otherwise 1 + (2 if part (a) of SemTokProofs.semtok_full_statement fails for this
                document) + (1 if part (b) fails) - so 1 = the full statement holds here.
    51: args = line :: column :: text.
-       Output: [0; 0] for the answer `null`; 0 :: 1 :: n :: the n items, each encoded as
+       Output: [0; flag; 0] for the answer `null`; 0 :: flag :: 1 :: n :: the n items, each encoded as
                enc_text label ++ [kind] ++ opt detail ++ opt documentation ++ opt insert_text, SORTED
-               (the Rust code iterates HashMaps); [1] panic; [2] fuel. *)
+               (the Rust code iterates HashMaps); [1] panic; [2] fuel.
+               flag = Completion.full_flag: 0 no claim of C16 at this position, 1 the answer meets the
+               property (CompletionProofs.completion_full_statement at this document and position), 2 not. *)
 From Spl Require Export Judge.Dump Model.Completion.
 
 Definition enc_semtok (s : semtok) : list N := [st_dl s; st_ds s; st_len s; st_ty s; st_mod s].
@@ -81,8 +83,9 @@ Definition run_completion (args : list N) : list N :=
       match new_doc t with
       | Done d =>
           match propose d line col with
-          | ROk None => [0; 0]
-          | ROk (Some items) => 0 :: 1 :: nlen items :: concat (sort_nlists (map enc_item items))
+          | ROk None => [0; full_flag d line col; 0]
+          | ROk (Some items) =>
+              0 :: full_flag d line col :: 1 :: nlen items :: concat (sort_nlists (map enc_item items))
           | RFail _ => [1]
           end
       | Panic => [2]
